@@ -157,22 +157,30 @@ def main():
     P.oblige('C16.vcv.roundtrip_local_cart_local', 'statistics.vcv_cart2local', '3x3', E.prove(goal, A.side, use_axioms=False, timeout=120000), strict=True)
 
     # ---------------------------------------------------------------- error ellipse
-    pp = E.explore(lambda: st.error_ellipse(V))
-    assert len(pp) == 1
-    a_, b_, ori = [T(v) for v in pp[0]['val']]
+    pp = E.explore(lambda: st.error_ellipse(V), label='statistics.error_ellipse')
     p_, q_, r_ = Vt[0][0], Vt[1][1], Vt[0][1]
     psd = [p_ >= 0, q_ >= 0, p_ * q_ - r_ * r_ >= 0]
     zz = UF['sqrt']((p_ - q_) * (p_ - q_) + 4 * r_ * r_)
     hy = psd + [zz >= 0, zz * zz == (p_ - q_) * (p_ - q_) + 4 * r_ * r_]
     # under PSD: (p+q)^2 >= z^2 so the second radicand is >= 0
     P.oblige('C16.error_ellipse.radicands_nonneg', 'statistics.error_ellipse', 'psd', E.prove(z3.And(p_ + q_ + zz >= 0, p_ + q_ - zz >= 0), hy, use_axioms=False), strict=True)
-    g = z3.And(a_ * a_ + b_ * b_ == p_ + q_, a_ * a_ * b_ * b_ == p_ * q_ - r_ * r_, a_ >= b_, b_ >= 0)
-    P.oblige('C16.error_ellipse.eigen', 'statistics.error_ellipse', 'psd', E.prove_abs(g, hy + [p_ + q_ + zz >= 0, p_ + q_ - zz >= 0]), strict=True,
-             note='a^2+b^2 = trace and a^2 b^2 = det of the horizontal block => a^2, b^2 are its eigenvalues; a >= b >= 0')
     t_ = UF['atan2'](2 * r_, p_ - q_)
     psi = t_ / 2
-    P.oblige('C16.error_ellipse.orientation_form', 'statistics.error_ellipse', 'all', pe(ori, 90 - psi * 180 / PI), code=ori, spec=90 - psi * 180 / PI,
-             note='bearing (clockwise from north) = 90 deg - angle of the major axis from east')
+    okp = bool(pp) and all(p['kind'] == 'ret' for p in pp)
+    if not okp:
+        P.oblige('C16.error_ellipse.returns', 'statistics.error_ellipse', 'all', dict(result='sat', backend='path enumeration', ms=0), strict=True,
+                 note='error_ellipse returns on every path for a PSD matrix: %r' % ([(p['kind'], p['val']) for p in pp if p['kind'] != 'ret'][:2],))
+    for i_, pth_ in enumerate([p for p in pp if p['kind'] == 'ret']):          # one path on the unchanged tree
+        tag = 'psd' if len(pp) == 1 else 'psd, path %d' % (i_ + 1)
+        a_, b_, ori = [T(v) for v in pth_['val']]
+        hyp_ = hy + [p_ + q_ + zz >= 0, p_ + q_ - zz >= 0] + list(pth_['pc'])
+        g = z3.And(a_ * a_ + b_ * b_ == p_ + q_, a_ * a_ * b_ * b_ == p_ * q_ - r_ * r_, a_ >= b_, b_ >= 0)
+        P.oblige('C16.error_ellipse.eigen', 'statistics.error_ellipse', tag, E.prove_abs(g, hyp_), strict=True,
+                 note='a^2+b^2 = trace and a^2 b^2 = det of the horizontal block => a^2, b^2 are its eigenvalues; a >= b >= 0')
+        spec_o = 90 - psi * 180 / PI
+        P.oblige('C16.error_ellipse.orientation_form', 'statistics.error_ellipse', 'all' if len(pp) == 1 else 'path %d' % (i_ + 1),
+                 pe(ori, spec_o) if not pth_['pc'] else E.prove_eq(ori, spec_o, hyp_), code=ori, spec=spec_o, hyps=hyp_ if pth_['pc'] else (),
+                 note='bearing (clockwise from north) = 90 deg - angle of the major axis from east')
     Cc, Ss = z3.Real('cos_psi'), z3.Real('sin_psi')
     lam_a = (p_ + q_ + zz) / 2
     hy2 = hy + [Cc * Cc + Ss * Ss == 1, zz * (Cc * Cc - Ss * Ss) == p_ - q_, zz * (2 * Ss * Cc) == 2 * r_]
